@@ -480,6 +480,41 @@ pub fn c14(tier: Tier) -> i32 {
     for vs in res {
         run.merge_violations(vs);
     }
+    // without --toml all patterns are analysed, whatever files lie in the working directory or in the
+    // analysed directory (a file named Solstat.toml is just a file)
+    for place in ["cwd", "analysed-dir", "both"] {
+        let root = scratch("c14stray");
+        let corpus = root.join("corpus");
+        std::fs::create_dir_all(&corpus).unwrap();
+        for (n, s) in &srcs {
+            std::fs::write(corpus.join(format!("{}.sol", n)), s).unwrap();
+        }
+        let cwd = root.join("cwd");
+        std::fs::create_dir_all(&cwd).unwrap();
+        let stray = "path = './elsewhere'\noptimizations = [\"sstore\"]\nvulnerabilities = []\nqa = []\n";
+        if place != "analysed-dir" {
+            std::fs::write(cwd.join("Solstat.toml"), stray).unwrap();
+        }
+        if place != "cwd" {
+            std::fs::write(corpus.join("Solstat.toml"), stray).unwrap();
+        }
+        let out = run_bin(&bin, &cwd, &["--path", corpus.to_str().unwrap()]);
+        bin_runs += 1;
+        let want: BTreeSet<Pat> = all_names.iter().filter_map(|n| pat_for(n)).collect();
+        let got: BTreeSet<Pat> = std::fs::read_to_string(cwd.join("solstat_report.md")).map(|r| report::parse_report(&r, &tb).sections.iter().map(|x| x.1).collect()).unwrap_or_default();
+        if out.code != Some(0) || got != want {
+            run.violation(Violation {
+                site: "binary:selection:stray-config-file-changes-default-run".into(),
+                input: format!("no --toml; a file named Solstat.toml lies in: {}", place),
+                expected: "without a configuration file all patterns are analysed".into(),
+                observed: format!("exit {:?}; {} of {} pattern sections present; stderr {}", out.code, got.len(), want.len(), out.stderr),
+                size: 1,
+                unit_test: String::new(),
+                extra: json!({}),
+            });
+        }
+        let _ = std::fs::remove_dir_all(&root);
+    }
 
     // ---- directory resolution: --path {absent, dirA, ./contracts, contracts} x --toml {absent, path=dirB, path=./contracts} x ./contracts {exists, absent}
     let mut res_cases: Vec<(Option<&str>, Option<&str>, bool)> = Vec::new();
@@ -593,6 +628,19 @@ pub fn c14(tier: Tier) -> i32 {
             }
         }
     }
+    // a name that is valid in ANOTHER list and also listed there (in any casing) is still unknown here
+    for (li, other_valid, casing_mask) in [(1usize, on[0].clone(), 0u64), (1, on[1].clone(), u64::MAX), (2, on[0].clone(), 1), (2, vn[0].clone(), 0), (0, vn[0].clone(), 0x5555), (0, qn[0].clone(), 0)] {
+        let misplaced = casing(&other_valid, casing_mask);
+        let (mut o, mut v, mut q) = (vec![on[0].clone(), on[1].clone()], vec![vn[0].clone()], vec![qn[0].clone()]);
+        match li {
+            0 => o.push(misplaced.clone()),
+            1 => v.push(misplaced.clone()),
+            _ => q.push(misplaced.clone()),
+        }
+        for pre in [false, true] {
+            unk_cases.push((format!("name {:?} valid for another list and listed there, also put into list {} (pre-existing report: {})", misplaced, ["optimizations", "vulnerabilities", "qa"][li], pre), o.clone(), v.clone(), q.clone(), pre));
+        }
+    }
     let ures = util::par_map(unk_cases.len(), |i| {
         let (label, o, v, q, pre) = &unk_cases[i];
         let root = scratch("c14unk");
@@ -656,7 +704,7 @@ enum Act {
     Plant(usize, usize),
 }
 
-const CWDS: &[&str] = &["out", "", "proj"];
+const CWDS: &[&str] = &["out", "", "proj", "proj/sub"];
 
 fn apply(root: &Path, a: &Act) {
     let proj = root.join("proj");
@@ -699,6 +747,14 @@ fn init_tree(root: &Path) {
     std::fs::write(root.join("proj").join("sub").join("b.sol"), crate::fsx::SRC_PQ).unwrap();
     std::fs::write(root.join("proj").join("notes.txt"), b"not solidity").unwrap();
     std::fs::write(root.join("proj").join("sub").join("x.t.sol"), crate::fsx::GARBAGE).unwrap();
+    // a configuration file outside the working directories, naming the analysed directory relatively
+    std::fs::create_dir_all(root.join("conf")).unwrap();
+    let l = |xs: &[&str]| xs.iter().map(|x| format!("\"{}\"", x)).collect::<Vec<_>>().join(", ");
+    std::fs::write(
+        root.join("conf").join("cfg.toml"),
+        format!("path = './proj'\noptimizations = [{}]\nvulnerabilities = [{}]\nqa = [{}]\n", l(crate::dets::OPT_NAMES), l(crate::dets::VULN_NAMES), l(crate::dets::QA_NAMES)),
+    )
+    .unwrap();
 }
 
 pub fn c18(tier: Tier) -> i32 {
@@ -713,14 +769,19 @@ pub fn c18(tier: Tier) -> i32 {
     };
     let depth = if tier == Tier::Quick { 3 } else { 4 };
     let mut acts: Vec<Act> = Vec::new();
-    for c in 0..3 {
+    for c in 0..CWDS.len() {
         acts.push(Act::Run(c));
     }
+    // run from the parent directory through a configuration file that lives elsewhere
+    acts.push(Act::Run(100));
     for e in 0..4 {
         acts.push(Act::Edit(e));
     }
-    for c in 0..3 {
+    for c in 0..CWDS.len() {
         for k in 0..3 {
+            if c == 3 && k == 1 {
+                continue;
+            }
             acts.push(Act::Plant(c, k));
         }
     }
@@ -762,11 +823,16 @@ pub fn c18(tier: Tier) -> i32 {
             match a {
                 Act::Run(c) => {
                     let before = snapshot(&root);
-                    let cwd = root.join(CWDS[*c]);
-                    let out = run_bin(&bin, &cwd, &["--path", root.join("proj").to_str().unwrap()]);
+                    let via_toml = *c == 100;
+                    let cwd_rel = if via_toml { "" } else { CWDS[*c] };
+                    let cwd = root.join(cwd_rel);
+                    if !cwd.is_dir() {
+                        continue;
+                    }
+                    let out = if via_toml { run_bin(&bin, &cwd, &["--toml", "conf/cfg.toml"]) } else { run_bin(&bin, &cwd, &["--path", root.join("proj").to_str().unwrap()]) };
                     runs += 1;
                     let after = snapshot(&root);
-                    let rep_rel = if CWDS[*c].is_empty() { "solstat_report.md".to_string() } else { format!("{}/solstat_report.md", CWDS[*c]) };
+                    let rep_rel = if cwd_rel.is_empty() { "solstat_report.md".to_string() } else { format!("{}/solstat_report.md", cwd_rel) };
                     let hist = format!("{:?} (violation at step {})", h, step);
                     if out.code != Some(0) {
                         vs.push(Violation { site: "run:failed".into(), input: hist.clone(), expected: "exit 0".into(), observed: format!("exit {:?} stderr {}", out.code, out.stderr), size: h.len(), unit_test: String::new(), extra: json!({}) });
@@ -798,7 +864,7 @@ pub fn c18(tier: Tier) -> i32 {
                             std::fs::create_dir_all(&fcwd).unwrap();
                             for (p, b) in &before {
                                 if let Some(rel) = p.strip_prefix("proj/") {
-                                    if rel == "solstat_report.md" {
+                                    if rel == "solstat_report.md" || rel.ends_with("/solstat_report.md") {
                                         continue;
                                     }
                                     if p.ends_with('/') {
@@ -857,7 +923,7 @@ pub fn c18(tier: Tier) -> i32 {
     run.set("distinct_nontrivial", finals.len() as u64);
     run.set(
         "rule",
-        "states = histories of <= 3 (quick) / 4 (thorough) actions ending in a run, over 16 actions: run the unhooked binary from a directory outside the tree / from the parent of the analysed directory / from the analysed directory itself; edit the tree (add, change, remove a .sol file, make the tree finding-free); plant a left-over solstat_report.md (unrelated bytes, 1 MB, a longer stale report) in any of the three working directories. After every run: byte snapshot of the whole scratch root before/after (only <cwd>/solstat_report.md may differ or appear), the report exists, and it is byte-identical to the report of a run on a fresh copy of the current tree from a clean working directory; non-trivial = distinct final snapshots",
+        "states = histories of <= 3 (quick) / 4 (thorough) actions ending in a run, over 21 actions: run the unhooked binary from a directory outside the tree / from the parent of the analysed directory / from the analysed directory itself / from a sub-directory of it / from the parent through a --toml file that lives in another directory and names the tree relatively; edit the tree (add, change, remove a .sol file, make the tree finding-free); plant a left-over solstat_report.md (unrelated bytes, 1 MB, a longer stale report) in any of the three working directories. After every run: byte snapshot of the whole scratch root before/after (only <cwd>/solstat_report.md may differ or appear), the report exists, and it is byte-identical to the report of a run on a fresh copy of the current tree from a clean working directory; non-trivial = distinct final snapshots",
     );
     run.set("bound_completed", format!("history length <= {}", depth));
     run.set("samples", json!(histories.iter().step_by(histories.len() / 3 + 1).take(3).map(|h| format!("{:?}", h)).collect::<Vec<_>>()));
